@@ -110,9 +110,7 @@ func init() {
 		nu := pick(c, 4, 5)
 		c.Cov.Bound["undo_family.Nmax"] = nu
 		BFS(c, &HistFamily{Nmax: nu, Insts: stdInsts(pick(c, []uint8{0, 63}, []uint8{0, 3, 63}), []string{"all", "even"})[1:], Or: HistOracle{Proofs: true, Prop: "C02"}, UndoBud: 1, PermLimit: 2}, 0)
-		if c.Thorough() {
-			tallFamily(c, "C02")
-		}
+		tallFamily(c, "C02")
 	}
 
 	Checks["C10"] = func(c *Ctx) {
@@ -141,7 +139,7 @@ func init() {
 		c.Cov.Bound["B.verify_remember_budget"] = famB.VerBud
 		BFS(c, famA, 0)
 		BFS(c, famB, 0)
-		if c.Thorough() && !c.Expired() {
+		if !c.Expired() {
 			tallFamily(c, "C10")
 		}
 	}
